@@ -12,21 +12,21 @@ type Spawn struct {
 }
 
 type State struct {
-	heap     map[int]Value
-	pc       []*Term
-	counts   map[string]int
-	spawned  []Spawn
-	panicVal Value // non-nil while panicking
-	pending  Value // the panic a deferred call may recover (set while that deferred call runs)
-	panicMsg string
-	noMerge  bool
-	log      []string
-	inputs   []InputDecl
-	obs      []Observation
-	obsBad   bool
-	sends    int // channel sends performed on this path
+	heap                    map[int]Value
+	pc                      []*Term
+	counts                  map[string]int
+	spawned                 []Spawn
+	panicVal                Value // non-nil while panicking
+	pending                 Value // the panic a deferred call may recover (set while that deferred call runs)
+	panicMsg                string
+	noMerge                 bool
+	log                     []string
+	inputs                  []InputDecl
+	obs                     []Observation
+	obsBad                  bool
+	sends                   int // channel sends performed on this path
 	lastNowSec, lastNowNsec *Term
-	tag      string // deliberate case splits (vChoice, vBytesEach, concretize): states with different tags never merge
+	tag                     string // deliberate case splits (vChoice, vBytesEach, concretize): states with different tags never merge
 }
 
 func newState() *State {
